@@ -715,6 +715,13 @@ func (fr *Frame) execBlock(b *ssa.BasicBlock, st *State, dry *loopInfo) {
 				continue // dry run of this very loop: nothing to check
 			}
 			fr.checkInvariants(s, fr.loops[s.Index], []*ssa.BasicBlock{b}, "inv-keep")
+			// vacuity probe (reported, never a violation): is this back edge reachable at all under the loop's invariants?
+			// An unreachable back edge makes every inv-keep obligation of the loop vacuous (this is how the unchecked
+			// loop frames were found).
+			if fc, li := fr.fc, fr.loops[s.Index]; li != nil && fr.contract != nil && !fr.inlined && len(activeLogs[fc]) == 0 && len(fr.contract.LoopInv[li.ord]) > 0 {
+				o := &Obligation{Name: fmt.Sprintf("cover:backedge:loop%d", li.ord), Kind: "cover-loop", Func: fc.fnName(), Guard: fr.edgeGuard(b, s), Goal: "false", NFacts: len(fc.facts), fc: fc, Props: fr.propsList, Cover: true, Block: b}
+				fc.obls = append(fc.obls, o)
+			}
 		}
 	}
 }
